@@ -72,6 +72,9 @@ inline void setFprc(uint32_t mode) { _mm_setcsr((_mm_getcsr() & ~0x6000u) | ((mo
 // Runs `program` (3200 bytes) through the real vm->run() with the given initial scratchpad
 // (copied into the VM's own scratchpad), entry rounding mode and iteration limit (0 = 2048).
 // If spOut != nullptr the whole scratchpad is copied out.
+// key of the violation reported when a program run does not return (set by the subcommand; nullptr = no watchdog)
+inline const char*& runWatchdogKey() { static const char* k = nullptr; return k; }
+
 inline ProgResult runProgram(randomx_vm* vm, const uint8_t* program, const uint8_t* spInit, uint32_t entryFprc, unsigned iterLimit, uint8_t* spOut = nullptr) {
 	using randomx_verif::Access;
 	ProgResult res;
@@ -88,8 +91,10 @@ inline ProgResult runProgram(randomx_vm* vm, const uint8_t* program, const uint8
 	unsigned csrAfter;
 	{
 		ip::Api scope("vm->run");
+		if (runWatchdogKey()) armRunWatchdog(runWatchdogKey(), 240); // a full interpreted run takes ~0.1 s (a few seconds under sanitizers on a loaded machine)
 		vm->run(seed);
 		csrAfter = _mm_getcsr();
+		if (runWatchdogKey()) disarmRunWatchdog();
 	}
 	_mm_setcsr(savedCsr);
 	h.programOverride = savedOverride; h.iterLimit = savedLimit;
